@@ -8,6 +8,14 @@ import BlocV.Model.Builtins
 import BlocV.Model.Fmt
 import BlocV.Spec.Arith
 
+-- BEGIN C13
+import BlocV.Spec.Lex
+-- END C13
+
+-- BEGIN C18
+import BlocV.DrvC18
+-- END C18
+
 open BlocV BlocV.Proto
 
 def specIRes : Spec.IRes → String
@@ -37,8 +45,42 @@ def parseTyStr (s : String) : Option Ty :=
   | some ((t, _), []) => some t
   | _ => none
 
+-- BEGIN C13
+/-- `tok <hex text> <reader>`: reader ::= `-` (1023-byte fragments) | `n,n,…` (fragment sizes) |
+`lines:<max>` (line discipline on the raw bytes) | `sr` (the library's StringReader: drops CR, 1023).
+Answers the `Parser::pop()` stream of the chunked scanner (model), of the whole-text scanner (spec)
+and the finding region the case lies in. -/
+def tokStr (ts : List Lex.Tok) : String :=
+  "toks=" ++ ",".intercalate (ts.map fun t => toString t.code ++ ":" ++ hexOfBytes t.text)
+
+def handleTok (hex reader : String) : String :=
+  let text := bytesOfHex hex
+  let isSr := reader == "sr"
+  let frags : List Bytes :=
+    if isSr then Lex.lineReader Lex.chunkMax text
+    else if reader.startsWith "lines:" then
+      Lex.lineSplit (Nat.max 1 (Nat.min ((reader.drop 6).toString.toNat?.getD 0) Lex.chunkMax)) text
+    else if reader == "-" then Lex.fragReader [] text
+    else Lex.fragReader ((reader.splitOn ",").map fun w => w.toNat?.getD 1) text
+  let specText := if isSr then Lex.crlfToLf text else text
+  let kf :=
+    if !Lex.noNul text then " kf=C13.nul_truncates_chunk"
+    else if !Lex.aligned frags then " kf=C13.unaligned_chunk_splits_token"
+    else if isSr && Lex.loneCr text then " kf=C13.reader_drops_lone_cr"
+    else ""
+  "model=" ++ tokStr (Lex.popStream true frags) ++ " spec=" ++ tokStr (Lex.specStream true specText) ++ kf
+-- END C13
+
 def handle (words : List String) : String :=
+  -- BEGIN C18
+  if let some r := DrvC18.handle words then r else
+  -- END C18
   match words with
+  -- BEGIN C13
+  | ["tok", hex, reader] => handleTok hex reader
+  | ["tok", reader] => handleTok "" reader
+  | ["lexrules"] => "rules=" ++ ",".intercalate (Lex.ruleSources.map fun r => hexOfBytes r.toUTF8.toList)
+  -- END C13
   | ["op", name, v1, v2, st1, st2] =>
     -- static operand types given explicitly (they differ from the value types for declared function results)
     match binOpOfName name, parseVal v1, parseVal v2, parseTyStr st1, parseTyStr st2 with
@@ -53,7 +95,7 @@ def handle (words : List String) : String :=
       match acceptBuiltin name (args.map Val.type) with
       | some (some code) => "model=perr " ++ toString code
       | _ =>
-        match evalBuiltin Fmt.fmt16g name (args.map fun v => fun _ => Res.ok v) with
+        match evalBuiltin (m := Res) Fmt.fmt16g name (args.map fun v => Res.ok v) with
         | some r => "model=" ++ resStr r
         | none => "model=unmodelled"
     | none => "bad-op"
